@@ -489,7 +489,7 @@ impl Prop for C11 {
 		]
 	}
 	fn expected_probes(&self) -> Vec<&'static str> {
-		vec!["boundary_in_int_varint", "boundary_in_long_varint", "boundary_in_len_prefix", "boundary_in_payload", "boundary_in_float", "boundary_in_double", "boundary_in_fixed", "boundary_in_union_index", "boundary_in_enum_index", "boundary_in_block_count", "boundary_in_block_size", "boundary_in_duration", "boundary_in_bigdecimal_inner", "boundary_in_single_object_header", "reader_bytewise_or_scratch_path", "container_reads", "container_damaged_reads", "top_level_from_datum_entry_points"]
+		vec!["long_stream_of_datums", "boundary_in_int_varint", "boundary_in_long_varint", "boundary_in_len_prefix", "boundary_in_payload", "boundary_in_float", "boundary_in_double", "boundary_in_fixed", "boundary_in_union_index", "boundary_in_enum_index", "boundary_in_block_count", "boundary_in_block_size", "boundary_in_duration", "boundary_in_bigdecimal_inner", "boundary_in_single_object_header", "reader_bytewise_or_scratch_path", "container_reads", "container_damaged_reads", "top_level_from_datum_entry_points"]
 	}
 	fn budget(&self, tier: Tier) -> (u64, u64) {
 		match tier {
